@@ -580,9 +580,13 @@ def discrete_SIR(G, test_transmission=_simple_test_transmission_, args=(), test_
     
     N=G.order()
     t = [tmin]
-    S = [N-len(initial_infecteds)]
+    if initial_recovereds is None:
+        number_initially_recovered = 0
+    else:
+        number_initially_recovered = len(initial_recovereds)
+    S = [N-len(initial_infecteds)-number_initially_recovered]
     I = [len(initial_infecteds)]
-    R = [0]
+    R = [number_initially_recovered]
     
     susceptible = defaultdict(lambda: True)  
     #above line is equivalent to u.susceptible=True for all nodes.
@@ -594,10 +598,10 @@ def discrete_SIR(G, test_transmission=_simple_test_transmission_, args=(), test_
             susceptible[u] = False
         
     infecteds = set(initial_infecteds)
-    totR= 0
+    totR= number_initially_recovered
     nI = len(initial_infecteds)
-    nR = 0
-    nS = N - nI
+    nR = number_initially_recovered
+    nS = N - nI - nR
     
     while infecteds and t[-1]<tmax:
         new_infecteds = set()
